@@ -183,6 +183,13 @@ func init() {
 		needPath(fr).assert(false, argStr(args[0]), fr)
 		return nil, true
 	})
+	// vp.RegexUF(pattern, s): regular-expression match as an uninterpreted predicate (same symbol on both
+	// sides of a differential check); natively Go's RE2 full match
+	reg(vpPkg+".RegexUF", func(fr *frame, args []value) (value, bool) {
+		checkPoison("vp.RegexUF", args...)
+		p, s := lift(args[0]), lift(args[1])
+		return mkApp("go_ufmatch", sortBool, p, s), true
+	})
 	// vp.RegexFullMatch(pattern, s): reference matcher over a structurally known pattern
 	reg(vpPkg+".RegexFullMatch", func(fr *frame, args []value) (value, bool) {
 		return boolValue(regexFullMatch(fr, lift(args[0]), lift(args[1]))), true
